@@ -77,7 +77,7 @@ def merged_units(tier):
     """documented type + neighbours in one shared file, exported through a root"""
     units = []
     n = 0
-    texts = [["Some words."], ["first", "", "third"], ["a */ b"], ["export type Zed = 1;"], ["naïve 日本語 ß"], ["x" * 300]]
+    texts = [["Some words."], ["first", "", "third"], ["first", "", "", "fourth"], ["", "", "", "x"], ["a */ b"], ["export type Zed = 1;"], ["naïve 日本語 ß"], ["x" * 300]]
     for lines in texts:
         for syntax in SYNTAX:
             for docpos in ("container", "field"):
